@@ -11,6 +11,7 @@ mod c07;
 mod c08;
 mod c09;
 mod c10;
+mod c11;
 mod c13;
 mod c15;
 mod c16;
@@ -41,6 +42,7 @@ fn main() {
         "c08-replay" => c08::replay_one(&args),
         "c09" => c09::main(&args),
         "c10" => c10::main(&args),
+        "c11" => c11::main(&args),
         "c13" => c13::main(&args),
         "c15" => c15::main(&args),
         "c16" => c16::main(&args),
